@@ -565,6 +565,17 @@ theorem lang_exact_stage_optimal (self : List (Str × Q)) (offers : List Str) (r
           Q.le q q' = true → specLe (baseSpec ci) (baseSpec ci') = false) :=
   bestMatch_optimal langNeg specLe_totalPre qle_totalPre self offers r h
 
+/-- the offers kept for the fallback stages are offers, and none of them was found refused -/
+theorem mem_langNotRefused {self : List (Str × Q)} {offers : List Str} {o : Str}
+    (h : o ∈ langNotRefused self offers) :
+    o ∈ offers ∧ ∀ ci q, bestSingle langNeg self o = some (ci, q) → Q.le q Q.zero = false := by
+  unfold langNotRefused at h
+  obtain ⟨h1, h2⟩ := List.mem_filter.mp h
+  refine ⟨h1, ?_⟩
+  intro ci q hb
+  rw [hb] at h2
+  simpa using h2
+
 /-- Every result of `LanguageAccept.best_match`, including the fallback stages, is one of the
 offers and is justified by a client range of positive quality: the range matches the offer
 exactly, or the range's primary tag is the offer (stage 2), or the offer's primary tag is the
@@ -581,29 +592,30 @@ theorem lang_result_sound (self : List (Str × Q)) (offers : List Str) (r : Str)
     simp only [Option.some.injEq] at h; subst h
     obtain ⟨hm, ci, q, hin, hmt, hpos⟩ := bestMatch_sound langNeg specLe_totalPre qle_totalPre _ _ _ h1
     exact ⟨hm, ci, q, hin, hpos, Or.inl hmt⟩
-  · split at h
+  · dsimp only at h
+    split at h
     · rename_i r2 h2
       simp only [Option.some.injEq] at h; subst h
       obtain ⟨hm, ci, q, hin, hmt, hpos⟩ := bestMatch_sound acceptNeg specLe_totalPre qle_totalPre _ _ _ h2
       have hin' : (ci, q) ∈ self.map fun it => (primaryTag it.1, it.2) := (mem_sortDesc _).mp hin
       obtain ⟨it, hit, heq⟩ := List.mem_map.mp hin'
       simp only [Prod.mk.injEq] at heq
-      refine ⟨hm, it.1, it.2, hit, ?_, Or.inr (Or.inl ?_)⟩
+      refine ⟨(mem_langNotRefused hm).1, it.1, it.2, hit, ?_, Or.inr (Or.inl ?_)⟩
       · rw [heq.2]; exact hpos
       · rw [heq.1]; exact hmt
-    · dsimp only at h
-      split at h
+    · split at h
       · rename_i p h3
         obtain ⟨hm, ci, q, hin, hmt, hpos⟩ := bestMatch_sound langNeg specLe_totalPre qle_totalPre _ _ _ h3
-        cases hf : (offers.zip (offers.map primaryTag)).find? (fun x => x.2 == p) with
+        cases hf : ((langNotRefused self offers).zip ((langNotRefused self offers).map primaryTag)).find?
+            (fun x => x.2 == p) with
         | none => rw [hf] at h; cases h
         | some x =>
           rw [hf] at h
           simp only [Option.map_some, Option.some.injEq] at h
-          obtain ⟨hx1, hx2, hx3⟩ := zip_map_find primaryTag _ offers x hf
+          obtain ⟨hx1, hx2, hx3⟩ := zip_map_find primaryTag _ _ x hf
           subst h
           have : primaryTag x.1 = p := by rw [← hx2]; simpa using hx3
-          refine ⟨hx1, ci, q, hin, hpos, Or.inr (Or.inr ?_)⟩
+          refine ⟨(mem_langNotRefused hx1).1, ci, q, hin, hpos, Or.inr (Or.inr ?_)⟩
           rw [this]; exact hmt
       · cases h
 
@@ -612,91 +624,105 @@ example : langBestMatch (mk langNeg [("en".toList, Q.one)]) ["english-x".toList,
 example : langBestMatch (mk langNeg [("en-US".toList, ⟨5, 1⟩), ("en-GB".toList, ⟨9, 1⟩)])
     ["de".toList, "en".toList] = some "en".toList := by decide
 
-/-- full-strength reading of "an offer whose best range has q=0 is never chosen" for
-`LanguageAccept.best_match` including its fallbacks -/
-def LangZeroNeverChosen : Prop :=
-  ∀ (self : List (Str × Q)) (offers : List Str) (r : Str), langBestMatch self offers = some r →
-    ∀ ci q, bestSingle langNeg self r = some (ci, q) → Q.le q Q.zero = false
+/-- The fallback stages only ever pick an offer that no client range matches exactly (0816efc):
+a fallback result is an offer without any exact match. -/
+theorem lang_fallback_only_unmatched (self : List (Str × Q)) (offers : List Str) (r : Str)
+    (h : langBestMatch self offers = some r) (hfb : bestMatch langNeg self offers = none) :
+    r ∈ offers ∧ bestSingle langNeg self r = none := by
+  have hm := (lang_result_sound self offers r h).1
+  refine ⟨hm, ?_⟩
+  -- r survived the filter ...
+  have hr : r ∈ langNotRefused self offers := by
+    unfold langBestMatch at h
+    rw [hfb] at h
+    dsimp only at h
+    split at h
+    · rename_i r2 h2
+      simp only [Option.some.injEq] at h; subst h
+      exact (bestMatch_sound acceptNeg specLe_totalPre qle_totalPre _ _ _ h2).1
+    · split at h
+      · rename_i p h3
+        cases hf : ((langNotRefused self offers).zip ((langNotRefused self offers).map primaryTag)).find?
+            (fun x => x.2 == p) with
+        | none => rw [hf] at h; cases h
+        | some x =>
+          rw [hf] at h
+          simp only [Option.map_some, Option.some.injEq] at h
+          subst h
+          exact (zip_map_find primaryTag _ _ x hf).1
+      · cases h
+  -- ... and the exact stage found nothing of positive quality
+  have hle := (bestMatch_none_iff langNeg specLe_totalPre qle_totalPre self offers).mp hfb r hm
+  cases hb : bestSingle langNeg self r with
+  | none => rfl
+  | some m =>
+    obtain ⟨ci, q⟩ := m
+    have h1 := hle ci q hb
+    have h2 := (mem_langNotRefused hr).2 ci q hb
+    change Q.le q Q.zero = true at h1
+    rw [h1] at h2; cases h2
 
-/-- Known finding F17c: the full-strength form is false. For `en-US;q=0, *` and the offer `en_us`
-the exact stage finds the offer refused (q=0) and returns nothing, but the fallback `Accept` of
-primary tags `[("en", 0), ("*", 1)]` then matches `en_us` through `*`. -/
-theorem lang_zero_never_chosen_full_false : ¬ LangZeroNeverChosen := by
-  intro h
-  have := h (mk langNeg [("en-US".toList, Q.zero), ("*".toList, Q.one)]) ["en_us".toList]
-    "en_us".toList (by decide) "en-US".toList Q.zero (by decide)
-  revert this
-  decide
+example : langBestMatch (mk langNeg [("en-US".toList, ⟨5, 1⟩)]) ["en".toList] = some "en".toList ∧
+    bestMatch langNeg (mk langNeg [("en-US".toList, ⟨5, 1⟩)]) ["en".toList] = none := by decide
 
-/-- ... and so is it through the last stage: `en-US;q=0, en;q=0.5` with the offer `en-US`. -/
-theorem lang_zero_chosen_stage3 :
-    langBestMatch (mk langNeg [("en-US".toList, Q.zero), ("en".toList, ⟨5, 1⟩)]) ["en-US".toList]
-      = some "en-US".toList ∧
-    quality langNeg (mk langNeg [("en-US".toList, Q.zero), ("en".toList, ⟨5, 1⟩)]) "en-US".toList
-      = some Q.zero := by decide
-
-/-- `_partial`: whenever the exact stage decides (some offer has positive quality under exact tag
-matching), the chosen offer's most specific matching range has positive q. Excluded: exactly the
-results of the two fallback stages (F17c). -/
-theorem lang_zero_never_chosen_partial (self : List (Str × Q)) (offers : List Str) (r : Str)
-    (h : langBestMatch self offers = some r) (hexact : bestMatch langNeg self offers ≠ none) :
+/-- "An offer whose best range has q=0 is never chosen" — at full strength for
+`LanguageAccept.best_match` including both fallback stages (F17c, repaired by 0816efc): whenever
+the chosen offer has an exact match at all, that match has positive quality. -/
+theorem lang_zero_never_chosen (self : List (Str × Q)) (offers : List Str) (r : Str)
+    (h : langBestMatch self offers = some r) :
     ∀ ci q, bestSingle langNeg self r = some (ci, q) → Q.le q Q.zero = false := by
+  intro ci q hb
   cases h1 : bestMatch langNeg self offers with
-  | none => exact absurd h1 hexact
   | some r1 =>
     have : langBestMatch self offers = some r1 := lang_exact_stage self offers r1 h1
     rw [this] at h
     simp only [Option.some.injEq] at h
     subst h
-    obtain ⟨_, _, ci0, q0, _, hb, hpos, _, _⟩ :=
+    obtain ⟨_, _, ci0, q0, _, hb0, hpos, _, _⟩ :=
       bestMatch_optimal langNeg specLe_totalPre qle_totalPre self offers r1 h1
-    intro ci q hb'
-    rw [hb] at hb'
-    simp only [Option.some.injEq, Prod.mk.injEq] at hb'
-    rw [← hb'.2]; exact hpos
+    rw [hb0] at hb
+    simp only [Option.some.injEq, Prod.mk.injEq] at hb
+    rw [← hb.2]; exact hpos
+  | none =>
+    have := (lang_fallback_only_unmatched self offers r h h1).2
+    rw [this] at hb; cases hb
 
-example : langBestMatch (mk langNeg [("en-US".toList, ⟨5, 1⟩)]) ["en_us".toList] = some "en_us".toList ∧
-    bestMatch langNeg (mk langNeg [("en-US".toList, ⟨5, 1⟩)]) ["en_us".toList] ≠ none := by decide
-
-/-- The fallback stages only ever pick an offer that the exact stage did not match at all or found
-refused: this is exactly the family of F17c. -/
-theorem lang_fallback_exact_quality (self : List (Str × Q)) (offers : List Str) (r : Str)
-    (h : langBestMatch self offers = some r) (hfb : bestMatch langNeg self offers = none) :
-    r ∈ offers ∧ ∀ ci q, bestSingle langNeg self r = some (ci, q) → Q.le q Q.zero = true := by
-  have hm := (lang_result_sound self offers r h).1
-  exact ⟨hm, (bestMatch_none_iff langNeg specLe_totalPre qle_totalPre self offers).mp hfb r hm⟩
-
-example : langBestMatch (mk langNeg [("en-US".toList, Q.zero), ("*".toList, Q.one)]) ["en_us".toList]
-      = some "en_us".toList ∧
-    bestMatch langNeg (mk langNeg [("en-US".toList, Q.zero), ("*".toList, Q.one)]) ["en_us".toList]
-      = none := by decide
+/-- regression inputs of F17c: the refused offers no longer come back -/
+theorem lang_refused_stays_refused :
+    langBestMatch (mk langNeg [("en-US".toList, Q.zero), ("*".toList, Q.one)]) ["en_us".toList] = none ∧
+    langBestMatch (mk langNeg [("en-US".toList, Q.zero), ("en".toList, ⟨5, 1⟩)]) ["en-US".toList] = none ∧
+    langBestMatch (mk langNeg [("en".toList, Q.zero), ("en-GB".toList, Q.one)]) ["en".toList] = none ∧
+    langBestMatch (mk langNeg [("en-US".toList, Q.zero), ("*".toList, Q.one)])
+      ["en_us".toList, "de-AT".toList] = some "de-AT".toList := by decide
 
 /-- The last stage never fails to map the matched primary tag back to an offer (the `next(...)`
 in the code cannot raise `StopIteration`): the result is `None` exactly when all three stages find
-no offer of positive quality. -/
+no offer of positive quality (the fallback stages run over the offers that were not refused). -/
 theorem lang_none_iff (self : List (Str × Q)) (offers : List Str) :
     langBestMatch self offers = none ↔
       bestMatch langNeg self offers = none ∧
-      bestMatch acceptNeg (langFallbackSelf self) offers = none ∧
-      bestMatch langNeg self (offers.map primaryTag) = none := by
+      bestMatch acceptNeg (langFallbackSelf self) (langNotRefused self offers) = none ∧
+      bestMatch langNeg self ((langNotRefused self offers).map primaryTag) = none := by
   unfold langBestMatch
   cases h1 : bestMatch langNeg self offers with
   | some r => simp
   | none =>
-    cases h2 : bestMatch acceptNeg (langFallbackSelf self) offers with
+    dsimp only
+    generalize langNotRefused self offers = offers'
+    cases h2 : bestMatch acceptNeg (langFallbackSelf self) offers' with
     | some r => simp
     | none =>
-      cases h3 : bestMatch langNeg self (offers.map primaryTag) with
-      | none => simp [h3]
+      cases h3 : bestMatch langNeg self (offers'.map primaryTag) with
+      | none => simp
       | some p =>
-        simp only [h3, reduceCtorEq, and_false, iff_false]
+        simp only [reduceCtorEq, and_false, iff_false]
         obtain ⟨hm, _⟩ := bestMatch_sound langNeg specLe_totalPre qle_totalPre _ _ _ h3
         obtain ⟨o, ho, hop⟩ := List.mem_map.mp hm
         intro hnone
         simp only [Option.map_eq_none_iff, List.find?_eq_none] at hnone
-        have hz : (o, primaryTag o) ∈ offers.zip (offers.map primaryTag) := by
-          clear hm h1 h2 h3 hnone
-          induction offers with
+        have hz : (o, primaryTag o) ∈ offers'.zip (offers'.map primaryTag) := by
+          clear hm h2 h3 hnone
+          induction offers' with
           | nil => simp at ho
           | cons a t ih =>
             simp only [List.map_cons, List.zip_cons_cons, List.mem_cons]
